@@ -19,7 +19,8 @@ TIERS = {"C13": (5000, 150, 150000, 1200)}
 PROBES = {"C13": ["stretch_inside_training", "stretch_overlapping_end", "stretch_after_training",
                   "update_between_transforms", "seasonal_phase_checked", "roundtrip_checked",
                   "fit_transform_checked", "index_preserving_checked", "shifted_twin_checked",
-                  "nonzero_origin", "pickle_midway", "pipeline_as_transformer"]}
+                  "nonzero_origin", "pickle_midway", "pipeline_as_transformer", "seasonal_fit_checked",
+                  "reconfigured_and_refitted"]}
 FAULT_KINDS = {"C13": ["index_shift", "pickle_roundtrip", "update_interleaved", "overlap_batch"]}
 RULE = {"C13": (
     "seeded transformer configuration x series x history of fit, round trips on stretches that "
@@ -87,7 +88,9 @@ def _min_len(spec):
     k = spec["kind"]
     need = 8
     for t in ([spec] if k != "ttf_t" else spec["transformers"]):
-        b = _base(t)
+        b = t
+        while b["kind"] == "optional":   # whatever the flag says now: it may be flipped later
+            b = b["transformer"]
         if b["kind"] in ("deseason", "cdeseason"):
             need = max(need, 2 * b.get("sp", 1) + 3)
         if b["kind"] == "boxcox":
@@ -119,6 +122,8 @@ def generate(prop, rng, tier):
             total += take
         elif r < 0.92:
             ops.append({"op": "fit_transform"})
+        elif r < 0.96 and spec["kind"] == "optional":
+            ops.append({"op": "reconfigure"})
         else:
             ops.append({"op": "pickle"})
     return {"spec": spec, "ops": ops,
@@ -208,6 +213,17 @@ def execute(prop, scen):
                 if base["kind"] in ("deseason", "cdeseason") and kind != "ttf_t":
                     inner = t.transformer_ if kind == "optional" else t
                     seasonal_ref = np.asarray(inner.seasonal_, dtype=float).copy()
+                    # the fitted components themselves: the classical decomposition of the
+                    # training series, component j belonging to time points t0 + j (mod sp)
+                    indep = _independent_seasonal(y.iloc[:n_fit], base, inner)
+                    if indep is not None:
+                        res.probe("seasonal_fit_checked")
+                        if not np.allclose(seasonal_ref, indep, rtol=1e-7, atol=1e-9):
+                            v("seasonal_components", "fitted seasonal components %s differ from the "
+                              "classical decomposition of the training series %s (n=%d, sp=%d)" % (
+                                  np.round(seasonal_ref, 4).tolist(), np.round(indep, 4).tolist(),
+                                  n_fit, base.get("sp", 1)))
+                            break
                 digest.update(b"fit")
             elif o == "update":
                 if not hasattr(t, "update"):
@@ -224,6 +240,33 @@ def execute(prop, scen):
                 if ov:
                     res.fault("overlap_batch")
                 digest.update(b"update")
+            elif o == "reconfigure":
+                # same object, another configuration, fitted again: must behave like a fresh
+                # object with that configuration
+                if kind != "optional":
+                    continue
+                new_flag = not spec.get("passthrough", False)
+                spec = dict(spec, passthrough=new_flag)
+                base = _base(spec)
+                if both("set_params+fit", lambda tr, yy: tr.set_params(passthrough=new_flag).fit(
+                        yy.iloc[:n_fit])) is None:
+                    break
+                seasonal_ref = None
+                fresh = build(spec).fit(y.iloc[:n_fit])
+                zz = y.iloc[2:2 + max(4, min(10, n_fit - 2))]
+                try:
+                    a_, b_ = t.transform(zz.copy()), fresh.transform(zz.copy())
+                except Exception as e:  # noqa
+                    v("op_raised", "transform after reconfiguration raised %s" % type(e).__name__,
+                      op="reconfigure", exc=type(e).__name__)
+                    break
+                res.probe("reconfigured_and_refitted")
+                if not _same(a_, b_):
+                    v("stale_state_after_refit", "after set_params(passthrough=%s) and a second fit the "
+                      "transformer gives %s, a fresh one with that configuration gives %s" % (
+                          new_flag, C.fmt(a_), C.fmt(b_)))
+                    break
+                fitted, pos, updates_since_fit = True, n_fit, 0
             elif o == "pickle":
                 with peers.paused():
                     t = C.pickle_roundtrip(t)
@@ -339,6 +382,20 @@ def execute(prop, scen):
             res.states.add(short_hash([o, pos, updates_since_fit]))
     res.digest = digest.hexdigest()[:16]
     return res
+
+
+def _independent_seasonal(z, base, inner):
+    from statsmodels.tsa.seasonal import seasonal_decompose
+    sp = base.get("sp", 1)
+    if base["kind"] == "cdeseason" and not getattr(inner, "is_seasonal_", False):
+        return None
+    try:
+        dec = seasonal_decompose(z, model=base.get("model", "additive"), period=sp, filt=None,
+                                 two_sided=True, extrapolate_trend=0)
+    except Exception:
+        return None
+    # the component of time point t0 + j is the j-th value of the seasonal series
+    return np.asarray(dec.seasonal.iloc[:sp], dtype=float)
 
 
 def _ill_conditioned(t, spec):
